@@ -333,6 +333,8 @@ def main():
         for b in cfg.get("fallback", {}).get(o["unit"], []):
             if b not in bnames and b not in finder_names:
                 finder_names.append(b)
+    if units and "depcheck" not in bnames:
+        bnames.append("depcheck")  # the assumed dependency contracts are re-checked against the real crates on every proof run
     bb = None
     if bnames or finder_names:
         bb = build_bounded()
@@ -405,6 +407,10 @@ def main():
     for br in bounded_results:
         if br.get("error"):
             internal.append("bounded check %s: %s" % (br["name"], br["error"]))
+            continue
+        if br["name"] == "depcheck":
+            if br.get("failures"):
+                internal.append("depcheck: an assumed prelude contract disagrees with the real dependency: %s (%s): expected %s, observed %s" % (br["failures"][0]["classification"], br["failures"][0]["input"].get("input"), br["failures"][0]["expected"], br["failures"][0]["observed"]))
             continue
         for fl in br.get("failures", []):
             if prop not in fl.get("properties", [fl.get("property")]):
